@@ -643,6 +643,23 @@ impl DbInner {
 		self.commit_raw(commit)
 	}
 
+	// The number of children of a node is stored in a single byte.
+	fn validate_new_node(node: &NewNode) -> Result<()> {
+		if node.children.len() > u8::MAX as usize {
+			return Err(Error::InvalidInput(format!(
+				"Tree node with {} children cannot be stored (maximum is {})",
+				node.children.len(),
+				u8::MAX
+			)))
+		}
+		for child in node.children.iter() {
+			if let crate::multitree::NodeRef::New(child) = child {
+				Self::validate_new_node(child)?;
+			}
+		}
+		Ok(())
+	}
+
 	// Checks that `change` is admissible for column `col`. No side effects.
 	fn validate_change(&self, col: ColId, change: &Operation<Vec<u8>, Vec<u8>>) -> Result<()> {
 		let options = &self.options.columns[col as usize];
@@ -652,7 +669,7 @@ impl DbInner {
 					Err(Error::InvalidConfiguration(
 						"Invalid operation for multitree column".to_string(),
 					)),
-				Operation::InsertTree(..) => Ok(()),
+				Operation::InsertTree(_, node) => Self::validate_new_node(node),
 				Operation::ReferenceTree(..) =>
 					if options.append_only || options.ref_counted {
 						Ok(())
